@@ -24,11 +24,15 @@ from dsim.world import SimEventCap, SimHang, SimReadHandle
 
 ID = 'C06'
 LEVEL = 'exploration'
-CLASSES = [('canonical', 4), ('canonical_dom', 2), ('foreign', 5)]
+CLASSES = [('canonical', 4), ('canonical_dom', 2), ('canonical_ref', 2),
+           ('foreign', 5)]
 TIERS = {'quick': {}}
 RULE = ('class canonical: seeded writer histories (as C01) stored, loaded '
         'into the object model and stored again; class canonical_dom: the '
-        'same for files produced by DiffX.to_bytes() of seeded trees; class foreign: seeded '
+        'same for files produced by DiffX.to_bytes() of seeded trees; class '
+        'canonical_ref: the canonical file of a seeded history as the '
+        'reference serializer writes it (no library code produced it); '
+        'class foreign: seeded '
         'foreign-producer files (shuffled options, blank lines, CRLF '
         'headers, 5 JSON styles, optional options omitted incl. the main '
         'encoding); non-trivial = >= 4 sections (canonical) / the object '
@@ -53,6 +57,27 @@ def generate(rng, tier, cls):
                 'ops': domgen.gen_tree_ops(rng, 'T1', max_changes=3,
                                            max_files=3, p_set=0.5,
                                            enc_pool=pool, full=True)}
+    elif cls == 'canonical_ref':
+        # the canonical file of a seeded history, written by the reference
+        # serializer: what the library's own writer would store (C02), but
+        # produced without it
+        main, ops = gen.gen_history(rng)
+
+        if rng.chance(0.3):
+            # an unindented preamble that opens with a header look-alike
+            for o in ops:
+                if o['op'] == 'write_preamble' and rng.chance(0.6):
+                    o['indent'] = 0
+                    o['text'] = rng.choice(
+                        ['#..meta: format=json, length=2\n',
+                         '#.change:\n', '#...diff: length=3\n',
+                         '#diffx: version=1.0\n']) + \
+                        (o.get('text') if isinstance(o.get('text'), str)
+                         else 'x\n')
+
+        kept, m = gen.filter_ops(main, ops)
+        prod = {'id': 'P1', 'kind': 'raw', 'file': 'f1',
+                'hex': m.getvalue().hex(), 'canonical_ref': True}
     elif cls == 'canonical':
         pool = None
 
@@ -84,6 +109,7 @@ def generate(rng, tier, cls):
             'via': rng.choice(['from_stream', 'from_stream', 'from_bytes',
                                'subclass']),
             'reuse': rng.chance(0.12),
+            'inspect': rng.chance(0.25),
             'stream': rng.choice(LOAD_STREAMS),
             'block_size': rng.choice([None, None, 1, 17, 97])}
 
@@ -165,7 +191,8 @@ def execute(scn, L):
         out.discarded = 'no-producer'
         return out
 
-    canonical = actors[0].get('kind') in ('writer', 'dom')
+    canonical = actors[0].get('kind') in ('writer', 'dom') or \
+        bool(actors[0].get('canonical_ref'))
     w = pipe.make_world(scn, L, actors)
     w.run()
     out.absorb(w)
@@ -249,6 +276,11 @@ def execute(scn, L):
             out.discarded = 'object-model-does-not-accept'
 
         return out
+
+    if scn.get('inspect'):
+        # the editor looks at everything before saving
+        domworld.inspect_tree(tree)
+        out.probe('tree_inspected_before_serialising')
 
     no_main_enc = 'encoding' not in ref[0]['options']
     needs_enc = any(r['type'] in ('preamble', 'meta') and r['_eff'] is None
